@@ -435,7 +435,11 @@ pub fn run(ctx: &mut Ctx) -> Report {
 	loop {
 		let mut ops: Vec<Op> = idx.iter().map(|&i| step_ops[i].clone()).collect();
 		ops.extend(gets.iter().cloned());
-		check_history(ctx, &mut rep, &mut drv, &ops, &mut prev);
+		if std::panic::catch_unwind(std::panic::AssertUnwindSafe(|| check_history(ctx, &mut rep, &mut drv, &ops, &mut prev))).is_err() {
+			// (no operation on a name panics: not a lookup, not a comparison, not a copy)
+			rep.violate("C20:operation-panics", "an operation on a name (edit, lookup, enumeration, comparison, copy) panics", format!("history: {}\n{}", ops.iter().map(|o| o.sexp()).collect::<Vec<_>>().join(" "), crate::last_panic()));
+			prev = None;
+		}
 		// next index vector (length-lexicographic)
 		let mut k = idx.len();
 		loop {
@@ -483,13 +487,21 @@ pub fn run(ctx: &mut Ctx) -> Report {
 				ops.push(Op::Get(t.clone()));
 			}
 		}
-		check_history(ctx, &mut rep, &mut drv, &ops, &mut prev);
+		if std::panic::catch_unwind(std::panic::AssertUnwindSafe(|| check_history(ctx, &mut rep, &mut drv, &ops, &mut prev))).is_err() {
+			// (no operation on a name panics: not a lookup, not a comparison, not a copy)
+			rep.violate("C20:operation-panics", "an operation on a name (edit, lookup, enumeration, comparison, copy) panics", format!("history: {}\n{}", ops.iter().map(|o| o.sexp()).collect::<Vec<_>>().join(" "), crate::last_panic()));
+			prev = None;
+		}
 	}
 	// histories that only push (how the other runners build the names they ask for)
 	for _ in 0..(if ctx.thorough { 3000 } else { 300 }) {
 		let len = rng.below(10) as usize;
 		let ops: Vec<Op> = (0..len).map(|_| Op::Push(rng.pick(&wide_types).clone(), rng.pick(&wide_vals).clone())).collect();
-		check_history(ctx, &mut rep, &mut drv, &ops, &mut prev);
+		if std::panic::catch_unwind(std::panic::AssertUnwindSafe(|| check_history(ctx, &mut rep, &mut drv, &ops, &mut prev))).is_err() {
+			// (no operation on a name panics: not a lookup, not a comparison, not a copy)
+			rep.violate("C20:operation-panics", "an operation on a name (edit, lookup, enumeration, comparison, copy) panics", format!("history: {}\n{}", ops.iter().map(|o| o.sexp()).collect::<Vec<_>>().join(" "), crate::last_panic()));
+			prev = None;
+		}
 	}
 	rep.add("driver_requests", drv.requests);
 	rep
